@@ -14,15 +14,28 @@ MARGIN = 30 * MS               # margin of the spec-level predicates
 OPC = {"fail": 0, "succ": 1, "query": 2, "ban": 3, "unban": 4, "cleanup": 5, "bladd": 6, "blrm": 7, "wladd": 8,
        "wlrm": 9, "allowed": 10, "blcleanup": 11, "allowip": 12, "rlcleanup": 13, "hs": 14}
 DUR_OPS = ("ban", "bladd")
-CURRENT = (1, 1, 0)
-# explanations of an observation by a defect of the pinned tree: (variant flags, known-finding keys)
-EXPLAIN = [((1, 0, 0), ["ban-weakened"]),
-           ((0, 1, 1), ["unban-erases-reban"]),
-           ((0, 0, 1), ["ban-weakened", "unban-erases-reban"]),
-           ((0, 0, 0), ["ban-weakened"])]
+CURRENT = (1, 1, 0, 0)        # [cond_unban, keep_stronger, late_goroutines, anon_resets]
+# explanations of an observation by a defect the model keeps as a pinned variant: (variant flags, finding keys)
+EXPLAIN = []
+for _anon in (0, 1):
+    for _keep in (1, 0):
+        for _cond, _late in ((1, 0), (0, 1)):
+            _keys = ([] if _keep else ["ban-weakened"]) + ([] if _cond else ["unban-erases-reban"]) + \
+                    (["anon-registration-resets-failures"] if _anon else [])
+            if _keys:
+                EXPLAIN.append(((_cond, _keep, _late, _anon), _keys))
+EXPLAIN.sort(key=lambda e: len(e[1]))
+RACES = {
+    "ban": ("unban-erases-reban", "BanIP(ip,3ms); sleep 8ms; IsBanned(ip)=false; BanIP(ip,1h); sleep 5ms; IsBanned(ip)"),
+    "bl": ("blacklist-removal-erases-readd", "AddToBlacklist(ip,3ms); sleep 8ms; IsAllowed(ip)=true; AddToBlacklist(ip,1h); sleep 5ms; IsAllowed(ip)"),
+    "perm": ("lazy-unban-erases-permanent-ban", "BanIP(ip,3ms); sleep 8ms; IsBanned(ip)=false; BanIP(ip,permanent); sleep 5ms; IsBanned(ip)"),
+    "permfail": ("lazy-unban-erases-permanent-ban", "BanIP(ip,3ms); sleep 8ms; IsBanned(ip)=false; RecordFailure(ip) x PermanentBanAt; sleep 5ms; IsBanned(ip)"),
+    "blperm": ("blacklist-removal-erases-permanent-entry", "AddToBlacklist(ip,3ms); sleep 8ms; IsAllowed(ip)=true; AddToBlacklist(ip,permanent); sleep 5ms; IsAllowed(ip)"),
+}
 KEY_TEXT = {
     "ban-weakened": "a ban in force is replaced by a weaker one (banIP overwrites unconditionally)",
     "unban-erases-reban": "the unban spawned by IsBanned/IsAllowed on an expired entry erases an entry re-established meanwhile",
+    "anon-registration-resets-failures": "handleFirstConnection calls RecordSuccess: registering a new anonymous client, which proves no credential, clears the address's failure record",
 }
 
 
@@ -227,7 +240,50 @@ def gen_reban(rng, cfg):
     return s.ops
 
 
-GENS = [("lockout", gen_lockout, 5), ("mix", gen_mix, 6), ("perm", gen_perm, 2), ("blacklist", gen_blacklist, 3),
+def gen_firstfail(rng, cfg):
+    """one early failure, a gap longer than the window, MaxFailures-1 failures, a clean-up, one more failure"""
+    s = Script(rng)
+    a = 1
+    s.op("fail", a)
+    if rng.random() < 0.5:
+        s.op("query", a)
+    s.wait(rng.choice([5, 6, 8]))
+    for _ in range(cfg["maxf"] - 1):
+        s.op("hs", a, 0) if rng.random() < 0.3 else s.op("fail", a)
+    if rng.random() < 0.5:
+        s.wait(1)
+    s.op("cleanup")
+    s.op("fail", a)
+    s.op("query", a)
+    s.wait(rng.choice([1, 2, 3]))
+    s.op("query", a)
+    s.op("hs", a, rng.choice([0, 1]))
+    s.wait(rng.choice([6, 8]))
+    s.op("cleanup")
+    s.op("query", a)
+    return s.ops
+
+
+def gen_anon(rng, cfg):
+    """wrong credentials interleaved with anonymous registrations from the same address"""
+    s = Script(rng)
+    a = 1
+    n = 0
+    while n < cfg["maxf"] + 1:
+        for _ in range(rng.randrange(1, cfg["maxf"])):
+            s.op("hs", a, 0)
+            n += 1
+        s.op("hs", a, 1)
+        if rng.random() < 0.3:
+            s.op("query", a)
+    s.op("query", a)
+    s.wait(1)
+    s.op("hs", a, 0)
+    s.op("query", a)
+    return s.ops
+
+
+GENS = [("firstfail", gen_firstfail, 2), ("anon", gen_anon, 2), ("lockout", gen_lockout, 5), ("mix", gen_mix, 6), ("perm", gen_perm, 2), ("blacklist", gen_blacklist, 3),
         ("bucket", gen_bucket, 3), ("reban", gen_reban, 2)]
 
 
@@ -352,7 +408,9 @@ def spec_check(case, obs):
                     causes.append((x["t0"], x["t1"] + D + MARGIN))
                 if total >= cfg["perm"]:
                     causes.append((x["t0"], None))
-            elif name == "succ" or (name == "hs" and x["r"] == 4):
+            elif name == "succ":
+                # RecordSuccess = a verified challenge response.  A successful ANONYMOUS registration (hs answer 4)
+                # proves no credential and must not clear the record.
                 fails = []
                 life = 0
             elif name == "ban":
@@ -432,7 +490,10 @@ def run(ctx, only_cases=None):
     else:
         cases = load_corpus() + gen_cases(ctx, 6000 if thorough else 260)
         trials = 200 if thorough else 40
-        cases += [{"kind": "race", "which": "ban", "trials": trials}, {"kind": "race", "which": "bl", "trials": trials}]
+        cases += [{"kind": "race", "which": w, "trials": trials} for w in ("ban", "bl", "perm", "permfail", "blperm")]
+        for entry in ("allowip", "allowipburst", "allowtunnel"):
+            cases.append({"kind": "burst", "entry": entry, "goroutines": 32, "keys": 60 if thorough else 25,
+                          "cfg": {"rate": ctx.rng.choice([7, 13]), "burst": ctx.rng.choice([1, 2, 3]), "ttl_ms": 60000}})
         for maxf in ([2, 3, 4, 5] if thorough else [2, 3]):
             cases.append({"kind": "inflight", "cfg": {"maxf": maxf, "window_ms": 5000, "ban_ms": 300, "perm": 50,
                                                       "rate": 20, "burst": 3, "ttl_ms": 475}})
@@ -444,12 +505,19 @@ def run(ctx, only_cases=None):
         if c["kind"] == "race":
             ambiguous_trials += o["pre_not_expired"]
             if o["lost"] > 0:
-                key = "unban-erases-reban" if c["which"] == "ban" else "blacklist-removal-erases-readd"
-                what = ("BanIP(ip,3ms); sleep 8ms; IsBanned(ip)=false; BanIP(ip,1h); sleep 5ms; IsBanned(ip)" if c["which"] == "ban" else
-                        "AddToBlacklist(ip,3ms); sleep 8ms; IsAllowed(ip)=true; AddToBlacklist(ip,1h); sleep 5ms; IsAllowed(ip)")
-                ctx.violation(key, "%s: the re-established entry was gone in %d of %d trials (the removal spawned by the "
-                              "query on the expired entry deletes whatever record is present)" % (what, o["lost"], o["trials"]),
+                key, what = RACES[c["which"]]
+                ctx.violation(key, "%s: the entry established right after the query was gone in %d of %d trials (the removal "
+                              "spawned by the query on the expired entry deleted it)" % (what, o["lost"], o["trials"]),
                               {"case": c, "observed": o})
+        elif c["kind"] == "burst":
+            cf = c["cfg"]
+            for k, (adm, el) in enumerate(zip(o["admitted"], o["elapsed_ns"])):
+                if adm > cf["burst"] + cf["rate"] * (el + 20 * MS) / NS + 1e-6:
+                    ctx.violation("first-requests-exceed-burst", "%d goroutines released together call %s for an address that has no "
+                                  "bucket yet: %d admitted in %.2f ms (burst %d, rate %d/s) — concurrent first requests did not share "
+                                  "one bucket" % (c["goroutines"], c["entry"], adm, el / MS, cf["burst"], cf["rate"]),
+                                  {"case": dict(c, keys=max(k + 1, 5)), "observed": {"admitted": adm, "elapsed_ns": el}})
+                    break
         elif c["kind"] == "inflight":
             if o["parked"] != c["cfg"]["maxf"]:
                 broken = broken or vlib.Broken("C18 harness: in-flight handshakes did not park in the gated credential store", json.dumps(o))
@@ -562,7 +630,8 @@ def run(ctx, only_cases=None):
         "steps_total": steps, "steps_compared_robust": robust_steps, "steps_ambiguous_not_compared": steps - robust_steps,
         "race_trials": sum(o["trials"] for o in races), "race_trials_ambiguous": ambiguous_trials,
         "race_trials_entry_lost": sum(o["lost"] for o in races),
-        "inflight_schedules": len(infl), "model_vs_impl_cases": len(tcs), "model_vs_impl_mismatches": len(mism),
+        "inflight_schedules": len(infl),
+        "burst_first_request_rounds": sum(len(o["admitted"]) for c, o in zip(cases, outs) if c["kind"] == "burst"), "model_vs_impl_cases": len(tcs), "model_vs_impl_mismatches": len(mism),
         "cases_explained_by_pinned_variant": explained, "impl_property_failures": nfail,
         "input_distribution": dist, "generated_file_changed": gen_changed,
     })
